@@ -726,6 +726,10 @@ fn selftest(args: &[String]) -> i32 {
             for w in 0..nw {
                 if let Ok(c) = std::process::Command::new(&exe)
                     .args(["worker", prop, "quick", &verif_seed.to_string(), &w.to_string(), &nw.to_string(), &n.to_string(), &outdir, "log"])
+                    // (seeded runs only: the enumerated cases draw nothing)
+                    .env("VERIF_RUNS", n.to_string())
+                    .stdout(std::process::Stdio::null())
+                    .stderr(std::process::Stdio::null())
                     .env("VERIF_FINDINGS", "/nonexistent")
                     .env("VERIF_MAX_VIOLATIONS", "1000000")
                     .env("VERIF_MIN_BUDGET", "0")
